@@ -83,6 +83,10 @@ func cutAt(P []byte, cuts []int, id uint32) []piece {
 
 func randCuts(r *hx.Run, n int, aligned bool) []int {
 	k := r.R.Intn(5)
+	if r.R.Intn(4) == 0 {
+		// many fragments: the hole list outgrows its initial capacity (16) and is reallocated
+		k = 12 + r.R.Intn(40)
+	}
 	m := map[int]bool{}
 	for i := 0; i < k; i++ {
 		c := 1 + r.R.Intn(n)
@@ -107,6 +111,9 @@ func wfHistory(r *hx.Run, w *world, big bool) {
 	var all []piece
 	for d := 0; d < nd; d++ {
 		n := 1 + r.R.Intn(r.Pick(60, 200))
+		if r.R.Intn(4) == 0 {
+			n = 100 + r.R.Intn(600)
+		}
 		if r.R.Intn(10) == 0 {
 			n = 1 + r.R.Intn(3000)
 		}
@@ -115,8 +122,12 @@ func wfHistory(r *hx.Run, w *world, big bool) {
 		id := uint32(r.R.Intn(4)) + uint32(d)*10
 		r.Emit(fmt.Sprintf("dgram %d 1 %s", id, hx.Hex(P)), "ok")
 		ps := cutAt(P, randCuts(r, n, r.R.Intn(2) == 0), id)
-		// overlapping extras that agree on content, and duplicates
-		for k := r.R.Intn(3); k > 0; k-- {
+		// overlapping extras that agree on content (re-cuts), and duplicates
+		extras := r.R.Intn(3)
+		if len(ps) > 10 {
+			extras = r.R.Intn(12)
+		}
+		for k := extras; k > 0; k-- {
 			a := r.R.Intn(n)
 			b := a + r.R.Intn(n-a)
 			ps = append(ps, piece{first: uint16(a), last: uint16(b), more: b+1 < n, data: P[a : b+1], id: id})
